@@ -103,6 +103,7 @@ type Exec struct {
 	targetPkg   string
 	entryVals   map[types.Object]Value
 	covers      []*Cover
+	quantFact   map[*Term]bool
 }
 
 func NewExec(prog *Prog, ts *TermStore) *Exec {
